@@ -12,15 +12,24 @@ use std::future::Future;
 use std::hash::Hash;
 use std::mem;
 use std::pin::Pin;
+#[cfg(not(all(excsn_fibre_verif, excsn_fibre_verif_shuttle)))]
 use std::sync::{
   atomic::{AtomicBool, Ordering},
   Arc, Weak,
+};
+#[cfg(all(excsn_fibre_verif, excsn_fibre_verif_shuttle))]
+use {
+  crate::internal::sync::{AtomicBool, Ordering},
+  std::sync::{Arc, Weak},
 };
 use std::task::{Context, Poll};
 
 use futures_core::Stream;
 use papaya::Equivalent;
+#[cfg(not(all(excsn_fibre_verif, excsn_fibre_verif_shuttle)))]
 use parking_lot::Mutex;
+#[cfg(all(excsn_fibre_verif, excsn_fibre_verif_shuttle))]
+use crate::internal::sync::Mutex;
 
 // --- Async Sender ---
 
